@@ -80,6 +80,7 @@ def gen_cfg(seed, index, tier):
     m["noise"] = rng.choice([0.0, 0.2, 0.6])
     m["theta"] = rng.choice([0.0, 0.3, 0.785])
     m["walker_noise"] = rng.choice([0.02, 0.1, 0.3])
+    m["pinning"] = rng.choice([0.0, 0.0, 0.25, 0.6])  # spin-dependent one-body field (legal h1 input)
     m["jax_seed"] = rng.randrange(1, 2**20)
     m["e_shift"] = rng.choice([0.0, -1.0, 0.7])
     if m["kind"] == "walk":
@@ -104,7 +105,7 @@ def group_of_index(seed, index, tier):
 
 
 def spec_of(cfg, prop):
-    return dict(nn_bonds=cfg.get("nn_bonds", "lattice"), lattice=cfg["lattice"], n_sites=cfg["n_sites"], nelec=cfg["nelec"], u=cfg["u"], u_1=cfg["u_1"], dt=cfg["dt"], n_walkers=cfg["n_walkers"], prop=prop,
+    return dict(nn_bonds=cfg.get("nn_bonds", "lattice"), pinning=cfg.get("pinning", 0.0), lattice=cfg["lattice"], n_sites=cfg["n_sites"], nelec=cfg["nelec"], u=cfg["u"], u_1=cfg["u_1"], dt=cfg["dt"], n_walkers=cfg["n_walkers"], prop=prop,
                 trial=cfg["trial"], chol=cfg["chol"], stagger=cfg["stagger"], noise=cfg["noise"], theta=cfg["theta"], ham_seed=cfg["ham_seed"])
 
 
@@ -133,16 +134,16 @@ def start_walkers(cfg, s, same=False):
 def make_model(cfg, s):
     sec = fock.Sector(cfg["n_sites"], cfg["nelec"])
     psi = fock.trial_state(sec, cfg["trial"], s.wave_data)
-    K = np.asarray(s.ham_data_raw["h1"])[0]
+    K = np.asarray(s.ham_data_raw["h1"])
     return cpmc_model.CPMCModel(cfg["n_sites"], cfg["nelec"], K, cfg["u"], cfg["dt"], psi)
 
 
 def check_one_body(ctx, cfg, s, m):
     e = np.asarray(s.ham_data["exp_h1"])
     for sp in (0, 1):
-        if not np.allclose(e[sp], m.expK, rtol=1e-10, atol=1e-12):
+        if not np.allclose(e[sp], m.expK2[sp], rtol=1e-10, atol=1e-12):
             _bad(ctx, "cpmc.one_body_factor_is_not_exp_minus_dt_K_half", "propagator_cpmc._build_propagation_intermediates", cfg,
-                 max_abs_diff=float(np.max(np.abs(e[sp] - m.expK))), spin=sp)
+                 max_abs_diff=float(np.max(np.abs(e[sp] - m.expK2[sp]))), spin=sp)
             return False
     return True
 
